@@ -62,7 +62,7 @@ ASSUMPTIONS = ["a node is 'live' iff failed < 2 (the BAD rule of Node.status / B
                "deterministic cost allowance lasts (one call costs up to 0.8 s on a 158-bucket sparse tree because "
                "Trie.suffixes is quadratic); calls beyond the allowance are skipped and counted (probe closest_skipped_cost); "
                "the tree shape is checked after every step regardless"]
-REACH = ["bucket_split", "deep_split_depth_ge_8", "deep_split_depth_ge_64", "full_bucket_not_on_path_rejects",
+REACH = ["insitu_table_checks", "insitu_split_tables", "bucket_split", "deep_split_depth_ge_8", "deep_split_depth_ge_64", "full_bucket_not_on_path_rejects",
          "bad_node_removed", "bad_node_evicted_on_add", "rtt_eviction_on_add", "update_same_id",
          "closest_spans_multiple_buckets", "closest_fewer_than_k", "closest_bad_filtered", "closest_exclude_hit",
          "same_key_two_ids_live", "generate_id_sampled_nonroot", "status_changed_by_clock",
@@ -280,7 +280,10 @@ def _trie_random_case(seed: int, tier: str) -> dict:
 def cases(tier: str, base_seed: int):  # noqa: ANN201
     masks = iter(range(1 << len(KEYS3)))
     per_round = 32 if tier == "quick" else 16   # the 32768 subsets are used up within the tier's budget
+    from .c14_insitu import insitu_case
     for i in itertools.count():
+        if i % 12 == 0:
+            yield insitu_case(base_seed + i, tier)     # the table inside a simulated DHT network (see c14_insitu.py)
         yield _table_case(base_seed + i, tier)
         for m in itertools.islice(masks, per_round):
             yield _trie_subset_case(m)
@@ -317,6 +320,9 @@ def _bits(ident: bytes) -> str:
 
 
 def execute(case: dict) -> dict:
+    if case.get("scenario") == "insitu":
+        from .c14_insitu import execute_insitu
+        return execute_insitu(case)
     if case.get("scenario") == "trie":
         return _execute_trie(case)
     return _execute_table(case)
